@@ -25,6 +25,10 @@ TypedVals ==
   \o [k \in 1..3 |-> [t |-> "SignatureAlgorithms", tag |-> 13, algs |-> <<<<>>, <<1027>>, <<0, 258, 65535>>>>[k]]]
   \o [k \in 1..4 |-> [t |-> "Heartbeat", tag |-> 15, v |-> <<0, 1, 2, 255>>[k]]]
   \o [k \in 1..3 |-> [t |-> "ALPN", tag |-> 16, protos |-> << <<>>, <<<<104, 50>>>>, <<<<>>, Fill(4, 255), <<1>>>> >>[k]]]
+  \o << [t |-> "ALPN", tag |-> 16, protos |-> [k \in 1..128 |-> Fill(k, 255)]],          \* a name list of exactly 2^15 bytes
+        [t |-> "ALPN", tag |-> 16, protos |-> [k \in 1..255 |-> Fill(k, 255)]],          \* ... and of 65280 bytes
+        [t |-> "EllipticCurves", tag |-> 10, groups |-> [k \in 1..16384 |-> k]],          \* lists of 2^15 bytes
+        [t |-> "SignatureAlgorithms", tag |-> 13, algs |-> [k \in 1..16385 |-> k]] >>
   \o [k \in 1..3 |-> [t |-> "SignedCertificateTimestamp", tag |-> 18, data |-> <<None, Some(<<>>), Some(<<1, 2, 3>>)>>[k]]]
   \o Opq(21, "Padding")
   \o << [t |-> "EncryptThenMac", tag |-> 22], [t |-> "ExtendedMasterSecret", tag |-> 23] >>
@@ -132,6 +136,8 @@ SpecialCases ==
 (* inner length fields lying inside a well-formed outer extension *)
 InnerLies == <<
   <<0, 0, 0, 5, 0, 9, 0, 0, 1>>,          \* SNI list length beyond the extension
+  <<0, 0, 0, 2, 0, 1>>, <<0, 0, 0, 2, 255, 255>>, <<0, 0, 0, 1, 0>>,    \* ... in a two-byte body; a one-byte body
+  <<0, 16, 0, 2, 0, 1>>, <<0, 10, 0, 2, 0, 2>>, <<0, 13, 0, 2, 0, 4>>, <<0, 48, 0, 2, 0, 1>>, <<0, 45, 0, 1, 1>>,   \* the same for the other list-valued extensions
   <<0, 0, 0, 6, 0, 4, 0, 0, 9, 97>>,      \* SNI name length beyond the list: the list stops (many0)
   <<0, 10, 0, 4, 0, 3, 0, 23>>,           \* groups: odd inner length
   <<0, 10, 0, 3, 0, 4, 0>>,               \* groups: inner length beyond
